@@ -47,6 +47,7 @@ package sweep
 import (
 	"errors"
 	"fmt"
+	"os"
 	"sort"
 	"strings"
 	"sync"
@@ -390,13 +391,18 @@ type verifC18Life struct {
 	grp   []uint64
 
 	arrived     []bool
-	gone        []bool // spent on chain
-	callerReset []bool // re-offered / updated without a starting fee rate while it carried one
-	twoLive     []bool // the caller put the input into a second live request
-	nonFee      []bool // a bump of a request with this input failed for a reason that is not the fee
+	gone        []bool  // spent on chain
+	callerReset []bool  // re-offered / updated without a starting fee rate while it carried one
+	twoLive     []bool  // the caller put the input into a second live request
+	nonFee      []bool  // a bump of a request with this input failed for a reason that is not the fee
 	deferred    []int64 // starting fee rate the caller attached while the input sat in a request
 
-	results  []chan Result
+	// the callers keep reading their result channels (see listen).
+	resWG    sync.WaitGroup
+	resMu    sync.Mutex
+	resChans int
+	resGot   int
+	resTwice int
 	ownTxs   []verifC18LifeOwnTx
 	pubOK    map[int]int // request -> transactions published
 	blockIdx int
@@ -410,8 +416,15 @@ type verifC18Life struct {
 	ambBud   int64 // resolve: the largest budget among the requests a transaction may belong to
 }
 
+// verifC18LifeDebug: VERIF_C18_DEBUG=1 prints the caller / chain events of a
+// case as they happen (for cases that end in a watchdog).
+var verifC18LifeDebug = os.Getenv("VERIF_C18_DEBUG") != ""
+
 func (L *verifC18Life) logf(f string, a ...any) {
 	L.oplog = append(L.oplog, fmt.Sprintf("h%d b%d: ", L.g.height, L.blockIdx)+fmt.Sprintf(f, a...))
+	if verifC18LifeDebug {
+		fmt.Fprintln(os.Stderr, L.oplog[len(L.oplog)-1])
+	}
 }
 
 // callerClass: the classes of fee rate decreases the caller brought about.
@@ -812,9 +825,7 @@ func (L *verifC18Life) sweepInput(k int, p Params) {
 		L.t.Fatalf("verif: watchdog: SweepInput did not reach the sweeper")
 	}
 	r := <-done
-	if r.ch != nil {
-		L.results = append(L.results, r.ch)
-	}
+	L.listen(r.ch)
 	L.vc.Count("life_sweep_input_calls", 1)
 }
 
@@ -844,11 +855,43 @@ func (L *verifC18Life) updateParams(k int, p Params) error {
 		L.t.Fatalf("verif: watchdog: UpdateParams did not reach the sweeper")
 	}
 	r := <-done
-	if r.ch != nil {
-		L.results = append(L.results, r.ch)
-	}
+	L.listen(r.ch)
 	L.vc.Count("life_update_params_calls", 1)
 	return r.err
+}
+
+// listen: the caller of SweepInput / UpdateParams reads its result channel
+// until the sweeper stops. (The channel has room for one result; the sweeper
+// can signal an input twice from one handler - an input excluded through its
+// exclusive group and then found spent in the same TxUnknownSpend result - and
+// its collector then blocks on a caller that does not read. Counted as
+// life_result_channels_signalled_twice; liveness of the sweeper is not part of
+// C18.)
+func (L *verifC18Life) listen(ch chan Result) {
+	if ch == nil {
+		return
+	}
+	L.resChans++
+	L.resWG.Add(1)
+	quit := L.g.s.quit
+	go func() {
+		defer L.resWG.Done()
+		n := 0
+		for {
+			select {
+			case <-ch:
+				n++
+				L.resMu.Lock()
+				L.resGot++
+				if n == 2 {
+					L.resTwice++
+				}
+				L.resMu.Unlock()
+			case <-quit:
+				return
+			}
+		}
+	}()
 }
 
 // liveReq: the latest live request with input k.
@@ -1341,16 +1384,13 @@ func verifC18RunLife(t *testing.T, vc *verifCtx, r *verifRng, c *verifC18LifeCas
 	close(tp.quit)
 
 	// bookkeeping
-	final := 0
-	for _, ch := range L.results {
-		select {
-		case <-ch:
-			final++
-		default:
-		}
+	L.resWG.Wait()
+	vc.Count("life_result_channels", int64(L.resChans))
+	vc.Count("life_results_signalled", int64(L.resGot))
+	if L.resTwice > 0 {
+		vc.Count("life_result_channels_signalled_twice", int64(L.resTwice))
+		vc.Diag("life_result_channel_signalled_twice", fmt.Sprintf("%d channels", L.resTwice))
 	}
-	vc.Count("life_result_channels", int64(len(L.results)))
-	vc.Count("life_results_signalled", int64(final))
 	offered, later, multi := 0, 0, false
 	for _, q := range g.reqs {
 		if q.handed > 0 {
